@@ -31,6 +31,7 @@ var (
 	fShrink  = flag.Duration("verif.shrink", 60*time.Second, "shrink budget")
 	fCanary  = flag.Int("verif.canary", 0, "determinism canary: execute the first N runs twice")
 	fDigests = flag.Int("verif.digests", 0, "print event-log digests of the first N runs and exit")
+	fCrash   = flag.String("verif.crashfile", "", "file that always holds the plan being executed")
 )
 
 func TestVerif(t *testing.T) {
@@ -71,7 +72,7 @@ func TestVerif(t *testing.T) {
 	}
 	res := simkit.Search(t, w, simkit.Options{Property: *fProp, Tier: *fTier, Seed: *fSeed, Worker: *fWorker,
 		Workers: *fWorkers, Budget: *fBudget, MaxRuns: *fMaxRuns, OutFile: *fOut, ReplayDir: *fRepDir,
-		ShrinkBudget: *fShrink, Canary: *fCanary})
+		ShrinkBudget: *fShrink, Canary: *fCanary, CrashFile: *fCrash})
 	if res.Violation != nil {
 		fmt.Printf("WORKER-VIOLATION %s replay=%s\n", res.Violation.String(), res.Replay)
 	}
